@@ -8,6 +8,8 @@
 #include "raptor/gallery/diffusion.hpp"
 #include "raptor/krylov/par_cg.hpp"
 #include "raptor/krylov/par_bicgstab.hpp"
+#include "raptor/ruge_stuben/ruge_stuben_solver.hpp"
+#include "raptor/aggregation/smoothed_aggregation_solver.hpp"
 using namespace raptor;
 static vh::Env E;
 static std::vector<std::vector<long long>> G(const std::vector<long long>& v) { return vh::gather_ll(v); }
@@ -130,11 +132,141 @@ static std::vector<long long> gvec(ParVector& v) { return vh::gather_vec(v, fals
 static void setv(ParVector& v, const std::vector<double>& glob, int first) { for (int i = 0; i < v.local_n; i++) v.local.values[i] = glob[first + i]; }
 static std::vector<double> rvec(vh::Rng& g, int n) { std::vector<double> v(n); for (auto& e : v) e = (g.unit() - 0.5) * 4; return v; }
 
+// ------------------------------------------------------------------------------------------------------------
+// The sequential classes (Multilevel, RugeStubenSolver, SmoothedAggregationSolver on CSRMatrix / Vector), one
+// process: same case format as the distributed path with np = 1 and a 15th option entry = 1.
+static Multilevel* make_seq_solver(const Opts& o)
+{
+    coarsen_t cs[] = { RS, CLJP, Falgout, PMIS, HMIS }; interp_t is[] = { Direct, ModClassical, Extended }; relax_t rs[] = { Jacobi, SOR, SSOR };
+    Multilevel* ml;
+    if (o.solver == 0) ml = new RugeStubenSolver(o.theta, cs[o.coarsen], is[o.interp], Classical, rs[o.relax]);
+    else ml = new SmoothedAggregationSolver(o.theta, MIS, JacobiProlongation, Symmetric, rs[o.relax]);
+    ml->num_smooth_sweeps = o.sweeps; ml->relax_weight = o.weight; ml->max_coarse = o.max_coarse; ml->max_levels = o.max_levels;
+    return ml;
+}
+static std::vector<long long> seq_ents(CSRMatrix* M) {
+    std::vector<long long> e; for (int i = 0; i < M->n_rows; i++) for (int k = M->idx1[i]; k < M->idx1[i + 1]; k++) { e.push_back(i); e.push_back(M->idx2[k]); e.push_back((long long)vh::dbits(M->vals[k])); } return e; }
+static std::vector<long long> dump_seq_hierarchy(Multilevel* ml)
+{
+    std::vector<long long> h; int nl = (int)ml->levels.size(); h.push_back(nl);
+    for (int l = 0; l < nl; l++) {
+        CSRMatrix* A = ml->levels[l]->A; CSRMatrix* P = l + 1 < nl ? ml->levels[l]->P : nullptr;
+        std::vector<long long> row = { A->n_rows, A->n_rows, A->n_cols, A->n_cols, (long long)ml->levels[l]->x.size(), (long long)ml->levels[l]->b.size(), (long long)ml->levels[l]->tmp.size(), 0,
+                                       (long long)(P ? P->n_rows : -1), (long long)(P ? P->n_cols : -1), (long long)(P ? P->n_rows : -1), (long long)(P ? P->n_cols : -1) };
+        auto ae = seq_ents(A); std::vector<long long> pe; if (P) pe = seq_ents(P);
+        h.push_back(12); for (auto x : row) h.push_back(x);
+        h.push_back((long long)ae.size()); h.insert(h.end(), ae.begin(), ae.end());
+        h.push_back(P ? 1 : 0); h.push_back((long long)pe.size()); h.insert(h.end(), pe.begin(), pe.end());
+    }
+    return h;
+}
+static unsigned long long hash_seq(Multilevel* ml)
+{
+    unsigned long long hh = 1469598103934665603ull;
+    auto mix = [&](const void* p, size_t n) { const unsigned char* c = (const unsigned char*)p; for (size_t k = 0; k < n; k++) { hh ^= c[k]; hh *= 1099511628211ull; } };
+    int nl = (int)ml->levels.size();
+    for (int l = 0; l < nl; l++) for (CSRMatrix* M : { ml->levels[l]->A, l + 1 < nl ? ml->levels[l]->P : (CSRMatrix*)nullptr }) if (M) {
+        mix(M->idx1.data(), M->idx1.size() * 4); mix(M->idx2.data(), M->idx2.size() * 4); mix(M->vals.data(), M->vals.size() * 8); }
+    return hh;
+}
+static std::vector<long long> svec(Vector& v) { std::vector<long long> r(v.size()); for (int i = 0; i < v.size(); i++) r[i] = (long long)vh::dbits(v.values[i]); return r; }
+static void ssetv(Vector& v, const std::vector<double>& g) { for (int i = 0; i < v.size(); i++) v.values[i] = g[i]; }
+
+static void run_seq(const char* mode)
+{
+    bool c10 = !strcmp(mode, "C10"), c01 = !strcmp(mode, "C01"), c08 = !strcmp(mode, "C08"), c09 = !strcmp(mode, "C09");
+    vh::Rng g(E.seed * 2750159 + 1000 + (c10 ? 10 : c01 ? 1 : c08 ? 8 : 9));
+    int ncases = E.thorough ? 60 : (c08 ? 24 : 14);
+    for (int it = 0; it < ncases; it++)
+    {
+        Problem p = gen_problem(g, it, c10);
+        Opts o = gen_opts(g, c10); o.tap = -1; o.tol = 1e-7;
+        CSRMatrix* A;
+        if (p.use_stencil) { double* st = diffusion_stencil_2d(p.eps, p.theta); A = stencil_grid(st, p.grid, 2); delete[] st; }
+        else {   // entries assembled like the distributed path does (duplicates summed), rows sorted by column
+            std::map<std::pair<int, int>, double> acc; for (size_t k = 0; k < p.t.r.size(); k++) acc[{ p.t.r[k], p.t.c[k] }] += p.t.v[k];
+            vh::Trip u; u.n_rows = u.n_cols = p.n; for (auto& kv : acc) { u.r.push_back(kv.first.first); u.c.push_back(kv.first.second); u.v.push_back(kv.second); }
+            A = vh::make_csr(u);
+        }
+        int n = A->n_rows;
+        char ctx[200]; snprintf(ctx, 200, "seq/%s/kind%d/solver%d/c%d/i%d/r%d/w%.3f/mc%d/ml%d/n%d", mode, p.kind, o.solver, o.coarsen, o.interp, o.relax, o.weight, o.max_coarse, o.max_levels, n);
+        E.about((std::string("setup/") + ctx).c_str());
+        auto A_before = seq_ents(A);
+        Multilevel* ml = make_seq_solver(o);
+        if (o.solver == 0) ((RugeStubenSolver*)ml)->setup(A); else ((SmoothedAggregationSolver*)ml)->setup(A);
+        std::vector<long long> H = dump_seq_hierarchy(ml);
+        std::vector<long long> optv = { o.solver, o.coarsen, o.interp, o.relax, o.sweeps, o.max_coarse, o.max_levels, o.tap, o.max_iter, (long long)vh::dbits(o.weight), (long long)vh::dbits(o.theta), (long long)vh::dbits(o.tol), p.kind, 1, 1 };
+        if (c08) {
+            bool want = E.want(); auto A_after = seq_ents(A);
+            if (want) { vh::Case c("C08", "hier"); c.vec(optv).vec(A_before).vec(A_after); for (auto x : H) c.i(x); c.write(E.out); }
+            delete ml; delete A; continue;
+        }
+        unsigned long long h0 = hash_seq(ml);
+        Vector x(n), b(n);
+        auto run_cycle = [&](const std::vector<double>& x0, const std::vector<double>& b0, std::vector<long long>& xout, std::vector<long long>& bout) {
+            ssetv(x, x0); ssetv(b, b0); ml->cycle(x, b, 0); xout = svec(x); bout = svec(b); };
+        if (c09) {
+            std::vector<double> x1 = rvec(g, n), b1 = rvec(g, n), x2 = rvec(g, n), b2 = rvec(g, n);
+            double a = 0.5 * g.range(-4, 4), cc = 0.25 * g.range(-6, 6);
+            std::vector<double> x3(n), b3(n); for (int i = 0; i < n; i++) { x3[i] = a * x1[i] + cc * x2[i]; b3[i] = a * b1[i] + cc * b2[i]; }
+            std::vector<double> xs(n); for (auto& v : xs) v = g.range(-3, 3);
+            ssetv(x, xs); A->mult(x, b); std::vector<double> bs(b.values.begin(), b.values.begin() + n);
+            struct Rec { int kind; std::vector<double> x0, b0; std::vector<long long> xo, bo; };
+            std::vector<Rec> recs;
+            int nops = g.range(6, 12);
+            std::vector<int> plan = { 0, 1, 2, 3 };
+            for (int k = 0; k < nops; k++) { int op = g.below(6); plan.push_back(op); }
+            for (int op : plan) {
+                Rec r; r.kind = op;
+                E.about((std::string("history/op") + std::to_string(op) + "/" + ctx).c_str());
+                if (op <= 4) {
+                    const std::vector<double>& xx = op == 1 ? x2 : op == 2 ? x3 : op == 3 ? xs : x1; const std::vector<double>& bb = op == 1 ? b2 : op == 2 ? b3 : op == 3 ? bs : b1;
+                    r.x0 = xx; r.b0 = bb; run_cycle(xx, bb, r.xo, r.bo);
+                } else { r.x0 = rvec(g, n); r.b0 = rvec(g, n); ssetv(x, r.x0); ssetv(b, r.b0); ml->solve(x, b, o.max_iter); r.xo = svec(x); r.bo = svec(b); }
+                recs.push_back(r);
+            }
+            auto A_after = seq_ents(A);
+            long long same_h = (hash_seq(ml) == h0);
+            if (E.want()) {
+                vh::Case c("C09", "history"); c.vec(optv).i(same_h).vec(A_before).vec(A_after).d(a).d(cc).i((long long)recs.size());
+                for (auto& r : recs) { c.i(r.kind).dvec(r.x0).dvec(r.b0).vec(r.xo).vec(r.bo); }
+                for (auto xh : H) c.i(xh);
+                c.write(E.out);
+            }
+        }
+        if (c01 || c10) {
+            std::vector<double> xs(n), x0 = c10 ? rvec(g, n) : (g.coin(1, 4) ? std::vector<double>(n, 0.0) : rvec(g, n));
+            for (auto& v : xs) v = g.range(-3, 3);
+            std::vector<double> b0;
+            if (c10 || g.coin(2, 3)) { ssetv(x, xs); A->mult(x, b); b0.assign(b.values.begin(), b.values.begin() + n); }
+            else if (g.coin(1, 5)) b0.assign(n, 0.0);
+            else b0 = rvec(g, n);
+            E.about((std::string("solve/") + ctx).c_str());
+            ssetv(x, x0); ssetv(b, b0);
+            int iters = ml->solve(x, b, o.max_iter);
+            std::vector<long long> xfinal = svec(x), bafter = svec(b);
+            std::vector<double> hist = ml->get_residuals(); hist.resize(std::min((size_t)iters + 1, hist.size()));
+            E.about((std::string("replay/") + ctx).c_str());
+            ssetv(x, x0); ssetv(b, b0);
+            std::vector<std::vector<long long>> iterates = { svec(x) };
+            for (int k = 0; k < iters; k++) { ml->cycle(x, b, 0); iterates.push_back(svec(x)); }
+            if (E.want()) {
+                vh::Case c(c10 ? "C10" : "C01", "solve"); c.vec(optv).i(iters).dvec(hist).dvec(x0).dvec(b0).dvec(xs).vec(xfinal).vec(bafter).vec(A_before);
+                c.i((long long)iterates.size()); for (auto& v : iterates) c.vec(v);
+                for (auto xh : H) c.i(xh);
+                c.write(E.out);
+            }
+        }
+        delete ml; delete A;
+    }
+}
+
 int main(int argc, char** argv)
 {
     MPI_Init(&argc, &argv);
     E.init(argc, argv);
     const char* mode = argc > 2 ? argv[2] : "C09";
+    if (argc > 3 && !strcmp(argv[3], "seq")) { if (E.np == 1) run_seq(mode); E.finish(); MPI_Finalize(); return 0; }
     bool c10 = !strcmp(mode, "C10"), c01 = !strcmp(mode, "C01"), c08 = !strcmp(mode, "C08"), c09 = !strcmp(mode, "C09");
     vh::Rng g(E.seed * 2750159 + (c10 ? 10 : c01 ? 1 : c08 ? 8 : 9));
     int ncases = E.thorough ? 60 : (c08 ? 24 : 14);
